@@ -56,6 +56,11 @@ fn selftest() -> Result<(), String> {
     if !x.log.contains("getrandom 1 len") || !x.log.contains("(seeded)") {
         return Err("sim-rva drew no entropy through the seam (log has no seeded getrandom call)".into());
     }
+    // forks made by this process (every T2 run is one) must not change what an incarnation draws
+    let a2 = probe(7);
+    if a2.result.map_err(|p| p.message)? != a {
+        return Err("an incarnation draws different entropy after the process has forked".into());
+    }
     // file seam canary: a planned fault on the first open must be observed
     let z = run(11, &["open:1:errno:5".to_string()])?;
     if !z.log.contains("FAULT errno 5") || z.stdout == x.stdout {
@@ -79,6 +84,10 @@ fn main() {
         libc::mallopt(libc::M_MMAP_THRESHOLD, 64 << 20);
     }
     entropy::install_panic_hook();
+    entropy::normalise_fork_state();
+    if std::env::var("VERIF_DEBUG_DRAWS").is_ok() {
+        entropy::DEBUG_DRAWS.store(true, std::sync::atomic::Ordering::Relaxed);
+    }
     let args: Vec<String> = std::env::args().skip(1).collect();
     let Some(cmd) = args.first() else { usage() };
     let master: u64 = std::env::var("VERIF_SEED").ok().and_then(|s| s.parse().ok()).unwrap_or(20_260_925);
@@ -97,6 +106,29 @@ fn main() {
             let tier = if args[2] == "thorough" { Tier::Thorough } else { Tier::Quick };
             let p = |i: usize| args[i].parse::<u64>().unwrap_or(0);
             driver::worker(&args[1], tier, p(3), p(4), p(5), p(6));
+        }
+        "entropy-probe" => {
+            use std::hash::BuildHasher;
+            let probe = |seed: u64| {
+                entropy::incarnation(seed, || {
+                    let h = std::collections::hash_map::RandomState::new().hash_one(42u64);
+                    let u = uuid::Uuid::new_v4().to_string();
+                    (h, u)
+                })
+                .result
+                .unwrap()
+            };
+            for round in 0..2 {
+                for seed in [1u64, 2, 3, 1, 2, 3] {
+                    println!("round {round} seed {seed}: {:?}", probe(seed));
+                }
+            }
+        }
+        "determinism" => {
+            let Some(prop) = args.get(1) else { usage() };
+            let runs = args.get(2).and_then(|s| s.parse().ok()).unwrap_or(500);
+            let tier = if args.get(3).map(String::as_str) == Some("thorough") { Tier::Thorough } else { Tier::Quick };
+            std::process::exit(driver::determinism(prop, tier, master, runs));
         }
         "minimise" => {
             let Some(f) = args.get(1) else { usage() };
